@@ -106,7 +106,15 @@ func runSolver(ctx context.Context, s solverSpec, file string, timeoutMs int) so
 	_ = cmd.Run()
 	secs := time.Since(t0).Seconds()
 	text := out.String()
-	first := strings.TrimSpace(strings.SplitN(text, "\n", 2)[0])
+	first := ""
+	for _, l := range strings.Split(text, "\n") {
+		l = strings.TrimSpace(l)
+		if l == "" || strings.HasPrefix(l, "WARNING") || strings.HasPrefix(l, "(warning") {
+			continue
+		}
+		first = l
+		break
+	}
 	verdict := "unknown"
 	switch first {
 	case "unsat", "sat":
